@@ -167,6 +167,29 @@ class ZBag(Abstract):
         raise Unsupported(f'bag method {attr}')
 
 
+def _zbag_sym_delitem(self, it, key, node):
+    """del bag[i] / del bag[a:b]: some elements leave the list (which ones the multiset view does not track)."""
+    if isinstance(key, slice):
+        new_cnt = fresh(self.name + '.delslice', z3.ArraySort(self.esort, z3.IntSort()))
+        new_size = fresh(self.name + '.dellen', z3.IntSort())
+        e = z3.Const('_e', self.esort)
+        it.run.fact(z3.ForAll([e], z3.And(new_cnt[e] >= 0, new_cnt[e] <= self.cnt[e], new_cnt[e] <= new_size)))
+        it.run.fact(z3.And(new_size >= 0, new_size <= self.size))
+        it.run.fact(z3.Implies(new_size == self.size, new_cnt == self.cnt))
+        if key.step is None and key.stop is None and isinstance(key.start, int) and key.start >= 0:
+            it.run.fact(new_size == z3.If(self.size < key.start, self.size, z3.IntVal(key.start)))
+        self.cnt, self.size, self.head = new_cnt, new_size, None
+        return
+    if it.run.branch(self.size <= 0, where=f'bagdel@{node.lineno}'):
+        raise Raised(IndexError('list assignment index out of range'), node)
+    x = fresh(self.name + '.del', self.esort)
+    it.run.fact(self.cnt[x] > 0)
+    self.remove_one(x)
+
+
+ZBag.sym_delitem = _zbag_sym_delitem
+
+
 def _zbag_sym_iter(self, it, s, frame):
     return it.iterate_bag(self, s, frame)
 
